@@ -729,6 +729,9 @@ ALPHAS = [
     [[0, 4], [1, 1], [2, 1]],
     [[1, 2]],
     [[0, 1], [3, 1]],  # class not in the data -> documented ValueError
+    # keys deliberately NOT in sorted order and weights all different: the i-th weight belongs to the i-th key
+    [[1, 4], [0, 1]],
+    [[2, 1], [0, 5], [1, 2]],
 ]
 THREE_CLASS_EXTRA = {4: [[0, 1, 2, 0], [2, 2, 0, 1], [0, 0, 0, 2], [1, 2, 2, 1]],
                      5: [[0, 1, 2, 0, 1], [2, 2, 0, 1, 1], [0, 0, 0, 0, 2], [1, 0, 2, 2, 0]]}
